@@ -1,6 +1,6 @@
 """Per-arm extraction of interpreter::interpret (shared by C01, C11, C12, C15)."""
 from .analysis import Branches, Origins, edge_dominates, fmt_terms, reach_avoiding
-from .parsing import AST
+from .parsing import AST, region_aggs
 
 INTERP = "interpreter::interpret"
 DATA = ("param", 1)
@@ -114,3 +114,54 @@ class Interp:
                     else:
                         out.append((blk, tt, ft, set(c[2][0])))
         return out
+
+
+VARIABLE = "variable::Variable"
+
+
+def option_switch(ip, arm, scrutinee_ok):
+    """The case analysis on an Option inside an arm: (switch block, Some target, None target) — whether it was written as
+    `match`, `if let` or through a (normalised) combinator."""
+    for blk in sorted(arm.blocks):
+        ve = ip.br.variant_edges(blk)
+        if ve and ve["adt"] == "std::option::Option" and ve["scrutinee"] and scrutinee_ok(ve["scrutinee"]):
+            some_t = ve["edges"].get("Some", ve["otherwise"])
+            none_t = ve["edges"].get("None", ve["otherwise"])
+            if some_t != none_t:
+                return blk, some_t, none_t
+    return None
+
+
+def all_result_terms(ip, arm):
+    """Every value the arm can return inside Ok(..)."""
+    out = set()
+    for _, terms in arm.oks:
+        out |= set(terms)
+    return out
+
+
+def comparison_mapping_ok(ip, arm):
+    """Comparison arm: result = compare(res(lhs), comparator, res(rhs)) with None -> Null and Some(b) -> Bool(b)."""
+    def is_compare(t):
+        return t[0] == "call" and t[1] == "variable::Variable::compare" and len(t[2]) == 3 and ip.is_res(set(t[2][0]), "Comparison.lhs") and \
+            set(t[2][1]) == {("field", NODE, "Comparison.comparator")} and ip.is_res(set(t[2][2]), "Comparison.rhs")
+
+    sw = option_switch(ip, arm, lambda ts: all(is_compare(t) for t in ts))
+    if sw is None or arm.tail:
+        return False
+    blk, some_t, none_t = sw
+    vals = all_result_terms(ip, arm)
+    nulls = {t for t in vals if t[0] == "agg" and t[1] == VARIABLE + "::Null"}
+    bools = {t for t in vals if t[0] == "agg" and t[1] == VARIABLE + "::Bool"}
+    if not nulls or not bools or vals - nulls - bools:
+        return False
+    if not all(len(t[2]) == 1 and t[2][0] and all(is_compare(x) for x in t[2][0]) for t in bools):
+        return False
+    # Bool(..) is built only on the Some side
+    b = ip.b
+    for bb, i, st in region_aggs(b, arm.blocks, VARIABLE):
+        if st["rv"]["variant"] == "Bool" and not edge_dominates(b, (blk, some_t), bb):
+            return False
+        if st["rv"]["variant"] not in ("Bool", "Null"):
+            return False
+    return True
